@@ -57,8 +57,10 @@ def _child(conn, fn_mod, fn_name, name, spec):
         r = _call(fn_mod, fn_name, name, spec)
     except (KeyboardInterrupt, SystemExit):
         raise
-    except BaseException as e:  # noqa: BLE001 (UFL raises BaseException subclasses)
+    except Exception as e:
         r = {"name": name, "harness": [f"{name}: worker failed: {type(e).__name__}: {e}"]}
+    except BaseException as e:  # noqa: BLE001 (UFL's ArityMismatch & co. derive from BaseException: an explicit rejection by UFL/FFCx)
+        r = {"name": name, "outside": [f"{name}: rejected by UFL/FFCx with {type(e).__name__}: {str(e)[:160]} - not analysed"]}
     try:
         conn.send(r)
     except Exception as e:
